@@ -70,42 +70,24 @@ Print Assumptions restrict_inv.
 
 (* ---- histories ---- *)
 
-(* REFUTED as a total statement: a registration that follows a restrict which
-   removed a kind builds the new kind on the stale bytes of the vacated slot
-   (infos array pointer aliasing a live kind's array, or dangling).  Replayed
-   on the C code: corpus/c15/stale_after_*.case (ASan double free / use after free). *)
-Definition stale_witness : list (option str * op) :=
-  [ (None, OpRegister (Some (bs_of_N 1)) (-1) (Some [(lit "a", lit "1")]) 0%N);
-    (None, OpRegister (Some (bs_of_N 6)) (-1) (Some [(lit "b", lit "2")]) 0%N);
-    (None, OpRestrict (bs_of_N 14));
-    (None, OpRegister (Some (bs_of_N 8)) (-1) (Some [(lit "c", lit "3")]) 0%N) ].
-Theorem history_safe_refuted : exists h, run init_state h = Fatal F_STALE.
-Proof. exists stale_witness. vm_compute. reflexivity. Qed.
-Print Assumptions history_safe_refuted.
+(* no history reaches the stale-slot memory error: the unused slots of the array
+   never hold an infos array pointer (they did before fix c027890: restrict left a
+   copy of the last kind in the vacated slot; corpus/c15/stale_after_*.case) *)
+Theorem history_safe : forall h, run init_state h <> Fatal F_STALE.
+Proof. exact history_safe_init. Qed.
+Print Assumptions history_safe.
 
-(* same after a dup, with no infos at all (every duplicated kind owns an array) *)
-Definition stale_witness_dup : list (option str * op) :=
-  [ (None, OpRegister (Some (bs_of_N 1)) (-1) None 0%N);
-    (None, OpDup);
-    (None, OpRestrict (bs_of_N 14));
-    (None, OpRegister (Some (bs_of_N 4)) (-1) None 0%N) ].
-Theorem history_safe_dup_refuted : run init_state stale_witness_dup = Fatal F_STALE.
-Proof. vm_compute. reflexivity. Qed.
-Print Assumptions history_safe_dup_refuted.
-
-(* ... and that is the only way to fail: every history either ends in that
-   memory error (or in the 2^29-kinds shift) or leaves a state satisfying the
-   invariant w.r.t. its effective registrations *)
-Theorem history_inv_partial : forall h st rc,
+(* every history leaves a state satisfying the invariant w.r.t. its effective registrations *)
+Theorem history_inv : forall h st rc,
   run init_state h = Fine st rc -> Inv (ghost [] h) st.
 Proof. exact history_inv_init. Qed.
-Print Assumptions history_inv_partial.
+Print Assumptions history_inv.
 
-(* the class of histories that cannot hit the stale slot: no register after a
-   restrict unless a dup or an XML reload came in between *)
-Theorem history_safe_partial : forall h, stale_free false h = true -> run init_state h <> Fatal F_STALE.
-Proof. exact history_stale_free_init. Qed.
-Print Assumptions history_safe_partial.
+(* ... and the only way not to end in such a state is the 2^29-kinds shift *)
+Theorem history_total : forall h,
+  run init_state h = Fatal F_UB \/ exists st rc, run init_state h = Fine st rc /\ Inv (ghost [] h) st.
+Proof. exact history_total_init. Qed.
+Print Assumptions history_total.
 
 Theorem history_in_bounds : forall h st, run st h <> Fatal F_OOB.
 Proof. exact run_no_oob. Qed.
@@ -181,8 +163,25 @@ Print Assumptions xml_reload_same_kinds.
 (* ---- non-vacuity ---- *)
 (* a history with a split (INTERSECTS), a merge (CONTAINS), an inclusion, a
    restrict that removes a kind, a dup and a registration after it: it runs
-   without fatal outcome, so history_inv_partial / history_efficiencies apply to a
+   without fatal outcome, so history_inv / history_efficiencies apply to a
    state with 6 kinds *)
+(* the two histories that reached the stale slot before the fix *)
+Definition former_stale_witness : list (option str * op) :=
+  [ (None, OpRegister (Some (bs_of_N 1)) (-1) (Some [(lit "a", lit "1")]) 0%N);
+    (None, OpRegister (Some (bs_of_N 6)) (-1) (Some [(lit "b", lit "2")]) 0%N);
+    (None, OpRestrict (bs_of_N 14));
+    (None, OpRegister (Some (bs_of_N 8)) (-1) (Some [(lit "c", lit "3")]) 0%N) ].
+Definition former_stale_witness_dup : list (option str * op) :=
+  [ (None, OpRegister (Some (bs_of_N 1)) (-1) None 0%N);
+    (None, OpDup);
+    (None, OpRestrict (bs_of_N 14));
+    (None, OpRegister (Some (bs_of_N 4)) (-1) None 0%N) ].
+Example former_stale_witnesses_run :
+  (exists st, run init_state former_stale_witness = Fine st RC_OK /\
+              map k_infos (kinds st) = [[(lit "b", lit "2")]; [(lit "c", lit "3")]]) /\
+  (exists st, run init_state former_stale_witness_dup = Fine st RC_OK /\ length (kinds st) = 1%nat).
+Proof. split; eexists; (split; [vm_compute; reflexivity|reflexivity]). Qed.
+
 Definition example_history : list (option str * op) :=
   [ (None, OpRegister (Some (bs_of_N 3)) 5 (Some [(lit "CoreType", lit "IntelAtom")]) 0%N);
     (None, OpRegister (Some (bs_of_N 6)) 2 (Some [(lit "x", lit "1"); (lit "x", lit "1")]) 0%N);   (* INTERSECTS *)
@@ -197,10 +196,10 @@ Definition example_history : list (option str * op) :=
     (None, OpXml) ].
 Example example_history_runs :
   exists st, run init_state example_history = Fine st RC_OK /\ length (kinds st) = 6%nat /\
-             stale_free false example_history = true /\ no_xml (firstn 10 example_history) /\
+             no_xml (firstn 10 example_history) /\
              map k_eff (kinds st) = [0; 1; 2; 3; 4; 5] /\ map k_forced (kinds st) = [1; 2; 3; 6; 7; 8].
 Proof.
-  eexists. split; [vm_compute; reflexivity|]. split; [reflexivity|]. split; [reflexivity|].
+  eexists. split; [vm_compute; reflexivity|]. split; [reflexivity|].
   split; [|split; reflexivity]. repeat constructor; discriminate.
 Qed.
 
